@@ -47,6 +47,19 @@ CHECKS.update({
          SYM + ", file-system model observed at every return point", "DESIGN.md §C20"),
 })
 
+CHECKS.update({
+ "C06": ("Bounded model checking of the real AsyncLogger against an executable FIFO queue model with a single-stepped worker (gated appender): every operation sequence within the bound over {append event, raw write, worker takes one}, 3 policies, capacity 1..2; plus per-producer delivery order under all explored schedules of 1..2 producers.",
+         SYM + " with an explicit scheduler; executable queue-model oracle", "DESIGN.md §C06"),
+ "C11": ("Symbolic execution of the 15 entry points, record and FastCaller over the interpreter's own call stack (runtime.Caller/Callers/CallersFrames resolve frames of the interpreted stack), all call shapes and both lookup modes, Record with an arbitrary skip; sampled paths and every counterexample are re-run natively against the real runtime.",
+         SYM + " over a modelled call stack, native replay against the real runtime", "DESIGN.md §C11"),
+ "C15": ("Bounded symbolic execution of toCamelKey on generated key spellings, and of the real Refresh/NewPlugin/inject/injectAttribute/injectElement (through a reflect shim over interpreter values) for every registered logger x appender type x 12 configuration variants and for attribute resolution (configured / default / ${key} / key spellings / inline 'name!' form).",
+         SYM + " incl. a reflect shim, native replay", "DESIGN.md §C15"),
+ "C16": ("Bounded model checking of the lifecycle: every operation sequence within the bound over Refresh (valid sync/async, invalid early/late), Destroy, logging via tag at an arbitrary level, writing via handle, registration, on the real package globals with the real Refresh/Destroy, against a reference state machine.",
+         SYM + " over operation histories, reference state machine, native replay", "DESIGN.md §C16"),
+ "C17": ("Bounded symbolic execution of the real expr.Parse INCLUDING the ANTLR-generated lexer/parser and the ANTLR runtime (executed from SSA): totality on every string up to the bound over a 15-symbol alphabet; exact flattening of grammar-generated expressions against a reference flattener; every string literal shape the lexer admits.",
+         SYM + " of the real ANTLR recogniser, reference flattener oracle, native replay", "DESIGN.md §C17"),
+})
+
 NA_DEFAULT = "check not built yet in this session (engine under construction); see DESIGN.md"
 NA = {}
 
